@@ -801,3 +801,379 @@ func globalMapIntKeys(c *Ctx, g *ssa.Global) (map[int64]bool, bool) {
 	}
 	return keys, okAll
 }
+
+// C09.nodrop — no lexer state silently discards input. A state function that has consumed input (a direct call of
+// next(), or of a lexer method that loops over next()) must, before it returns, hand that input on: emit a token, raise
+// a lexical error, explicitly skip it (a lexer method that moves the token start up to the position: whitespace), or put
+// it back (backup). A path that consumes and then just returns makes the consumed text vanish from the token stream:
+// the parser then accepts `a = "1" "xyz` as `a = "1"` (unterminated strings and trailing text are to be rejected).
+// Discharging methods are recognised structurally: methods of the lexer that send on a channel or store to the field
+// that marks the start of the current token.
+func c09NoDrop(c *Ctx) {
+	const rule = "C09.nodrop"
+	lexT := c.w.namedType(pkgParser, "lexer")
+	stateT := c.w.namedType(pkgParser, "stateFn")
+	nextFn := c.w.method(pkgParser, "lexer", "next")
+	peekFn := c.w.method(pkgParser, "lexer", "peek")
+	backupFn := c.w.method(pkgParser, "lexer", "backup")
+	if lexT == nil || stateT == nil || nextFn == nil {
+		c.r.ok(rule, "lexer", "no state-function lexer in the parser package")
+		return
+	}
+	startF := structFieldNamed(lexT, "start")
+	isLexMethod := func(f *ssa.Function) bool {
+		return f != nil && f.Signature.Recv() != nil && typeIs(f.Signature.Recv().Type(), pkgParser, "lexer") && f.Blocks != nil
+	}
+	discharges := func(f *ssa.Function) bool {
+		if f == backupFn && backupFn != nil {
+			return true
+		}
+		if !isLexMethod(f) || f == nextFn || f == peekFn {
+			return false
+		}
+		return c.fc.mayContain(f, func(i ssa.Instruction) bool {
+			switch x := i.(type) {
+			case *ssa.Send:
+				return true
+			case *ssa.Store:
+				if fa, ok := x.Addr.(*ssa.FieldAddr); ok && startF != nil && fieldOf(fa.X.Type(), fa.Field) == startF {
+					return true
+				}
+			}
+			return false
+		}, 1)
+	}
+	consumes := func(f *ssa.Function) bool {
+		if f == nextFn {
+			return true
+		}
+		if !isLexMethod(f) || f == peekFn || discharges(f) {
+			return false
+		}
+		// a lexer method that calls next() in a loop (acceptRun)
+		has := false
+		allInstrs(f, func(i ssa.Instruction) {
+			if call, ok := i.(*ssa.Call); ok && calleeFunc(&call.Call) == nextFn {
+				has = true
+			}
+		})
+		return has && len(loopsOf(f)) > 0
+	}
+	n := 0
+	for _, fn := range c.w.ModFuncs {
+		if c.w.pkgPathOf(fn) != pkgParser || fn.Signature.Recv() != nil || fn.Parent() != nil {
+			continue
+		}
+		sig := fn.Signature
+		if !(sig.Params().Len() == 1 && sig.Results().Len() == 1 && typeIs(sig.Params().At(0).Type(), pkgParser, "lexer") && types.Identical(sig.Results().At(0).Type(), stateT)) {
+			continue
+		}
+		n++
+		isDischarge := func(i ssa.Instruction) bool {
+			call, ok := i.(*ssa.Call)
+			return ok && discharges(calleeFunc(&call.Call))
+		}
+		var witness []ssa.Instruction
+		allInstrs(fn, func(i ssa.Instruction) {
+			call, ok := i.(*ssa.Call)
+			if !ok || witness != nil || !consumes(calleeFunc(&call.Call)) {
+				return
+			}
+			if p := c.fc.pathAvoiding(fn, call, func(x ssa.Instruction) bool { _, r := x.(*ssa.Return); return r }, isDischarge); p != nil {
+				witness = p
+			}
+		})
+		if witness != nil {
+			c.r.bad(rule, safeFname(fn), "a lexer state can return after consuming input without emitting a token, raising an error, skipping it explicitly or putting it back: the consumed text silently disappears from the token stream (an unterminated string after a complete query is accepted)",
+				[]string{c.w.ipos(witness[len(witness)-1])}, c.fc.witnessStrings(witness)...)
+		} else {
+			c.r.ok(rule, safeFname(fn), "every path that consumes input emits, raises an error, skips explicitly or backs up before returning", c.w.pos(fn.Pos()))
+		}
+	}
+	if n == 0 {
+		c.r.ok(rule, "lexer", "no state functions found")
+	}
+}
+
+// C09.closedtoken — a token that needs a terminator is not emitted when the input runs out first. In a lexer state
+// function, on the edge on which a rune obtained from next() is found to be the end-of-input marker, every path to a
+// return raises a lexical error before it can emit a token (other than the end-of-input token itself). With the string
+// state this is "an unterminated string is never turned into a value token".
+func c09ClosedToken(c *Ctx) {
+	const rule = "C09.closedtoken"
+	lexT := c.w.namedType(pkgParser, "lexer")
+	stateT := c.w.namedType(pkgParser, "stateFn")
+	itemT := c.w.namedType(pkgParser, "itemType")
+	nextFn := c.w.method(pkgParser, "lexer", "next")
+	if lexT == nil || stateT == nil || nextFn == nil || itemT == nil {
+		c.r.ok(rule, "lexer", "no state-function lexer in the parser package")
+		return
+	}
+	eofK := c.w.constant(pkgParser, "eof")
+	eofItem := c.w.constant(pkgParser, "itemEOF")
+	if eofK == nil || eofItem == nil {
+		c.r.undecided(rule, "<anchor>", "the end-of-input rune constant or the end-of-input token type is not found")
+		return
+	}
+	eofVal, _ := constant.Int64Val(eofK.Value.Value)
+	eofItemVal, _ := constant.Int64Val(eofItem.Value.Value)
+	isLexMethod := func(f *ssa.Function) bool {
+		return f != nil && f.Signature.Recv() != nil && typeIs(f.Signature.Recv().Type(), pkgParser, "lexer") && f.Blocks != nil
+	}
+	sends := func(f *ssa.Function) bool {
+		return c.fc.mayContain(f, func(i ssa.Instruction) bool { _, ok := i.(*ssa.Send); return ok }, 1)
+	}
+	// emit-like: a sending lexer method that takes the token type; error-like: a sending lexer method that returns a state
+	isEmit := func(i ssa.Instruction) bool {
+		call, ok := i.(*ssa.Call)
+		if !ok {
+			return false
+		}
+		f := calleeFunc(&call.Call)
+		if !isLexMethod(f) || !sends(f) {
+			return false
+		}
+		for k, p := range f.Params {
+			if types.Identical(p.Type(), itemT) && k < len(call.Call.Args) {
+				if kv, isK := constInt(call.Call.Args[k]); isK && kv == eofItemVal {
+					return false // emitting the end-of-input token at the end of the input is right
+				}
+				return true
+			}
+		}
+		return false
+	}
+	isError := func(i ssa.Instruction) bool {
+		call, ok := i.(*ssa.Call)
+		if !ok {
+			return false
+		}
+		f := calleeFunc(&call.Call)
+		if !isLexMethod(f) || !sends(f) {
+			return false
+		}
+		return f.Signature.Results().Len() == 1 && types.Identical(f.Signature.Results().At(0).Type(), stateT)
+	}
+	fromNext := func(v ssa.Value) bool {
+		seen := map[ssa.Value]bool{}
+		var visit func(v ssa.Value) bool
+		visit = func(v ssa.Value) bool {
+			if seen[v] {
+				return false
+			}
+			seen[v] = true
+			switch x := v.(type) {
+			case *ssa.Call:
+				return calleeFunc(&x.Call) == nextFn
+			case *ssa.Phi:
+				// a loop variable: every edge comes from next() (a value that may also come from peek() is examined on
+				// the edge where it was obtained, with the path context intact)
+				for _, e := range x.Edges {
+					if !seen[e] && !visit(e) {
+						return false
+					}
+				}
+				return len(x.Edges) > 0
+			}
+			return false
+		}
+		return visit(v)
+	}
+	n := 0
+	for _, fn := range c.w.ModFuncs {
+		if c.w.pkgPathOf(fn) != pkgParser || fn.Signature.Recv() != nil || fn.Parent() != nil {
+			continue
+		}
+		sig := fn.Signature
+		if !(sig.Params().Len() == 1 && sig.Results().Len() == 1 && typeIs(sig.Params().At(0).Type(), pkgParser, "lexer") && types.Identical(sig.Results().At(0).Type(), stateT)) {
+			continue
+		}
+		var witness []ssa.Instruction
+		edges := 0
+		for _, b := range fn.Blocks {
+			if len(b.Succs) != 2 {
+				continue
+			}
+			for _, succ := range b.Succs {
+				// does this edge establish r == eof for an r obtained from next()?
+				hit := false
+				iff, ok := b.Instrs[len(b.Instrs)-1].(*ssa.If)
+				if !ok {
+					continue
+				}
+				for _, cm := range trueCmps(fact{iff.Cond, b.Succs[0] == succ}) {
+					if cm.Op != token.EQL || cm.Y == nil {
+						continue
+					}
+					for _, pair := range [][2]ssa.Value{{cm.X, cm.Y}, {cm.Y, cm.X}} {
+						if k, isK := constInt(pair[1]); isK && k == eofVal && fromNext(pair[0]) {
+							hit = true
+						}
+					}
+				}
+				if !hit || len(succ.Instrs) == 0 {
+					continue
+				}
+				edges++
+				known := map[ssa.Value]int64{}
+				for _, cm := range trueCmps(fact{iff.Cond, b.Succs[0] == succ}) {
+					if cm.Op == token.EQL && cm.Y != nil {
+						if k, isK := constInt(cm.Y); isK {
+							known[cm.X] = k
+						}
+						if k, isK := constInt(cm.X); isK {
+							known[cm.Y] = k
+						}
+					}
+				}
+				if p := emitPathFromEdge(c, b, succ, isEmit, isError, known); p != nil && witness == nil {
+					witness = p
+				}
+			}
+		}
+		if edges == 0 {
+			continue
+		}
+		n++
+		if witness != nil {
+			c.r.bad(rule, safeFname(fn), "after the scanner has found the end of the input inside a token, a path emits the token anyway instead of raising a lexical error: an unterminated string becomes a value",
+				[]string{c.w.ipos(witness[len(witness)-1])}, c.fc.witnessStrings(witness)...)
+		} else {
+			c.r.ok(rule, safeFname(fn), "running out of input inside the token always ends in a lexical error", c.w.pos(fn.Pos()))
+		}
+	}
+	if n == 0 {
+		c.r.ok(rule, "lexer", "no state function scans for a terminator with next()")
+	}
+}
+
+// emitPathFromEdge searches, starting with the CFG edge pred→succ, a path to an instruction satisfying target that
+// passes no instruction satisfying avoid. Boolean phis are resolved by the edge actually taken and branches on such
+// phis (through negation) follow only the feasible successor, so a flag that records "terminator seen" is respected.
+func emitPathFromEdge(c *Ctx, pred, succ *ssa.BasicBlock, target, avoid func(ssa.Instruction) bool, known map[ssa.Value]int64) []ssa.Instruction {
+	type key struct {
+		b, prev *ssa.BasicBlock
+	}
+	seen := map[key]int{}
+	var witness []ssa.Instruction
+	var evalB func(v ssa.Value, env map[ssa.Value]bool) (bool, bool)
+	evalB = func(v ssa.Value, env map[ssa.Value]bool) (bool, bool) {
+		if r, ok := env[v]; ok {
+			return r, true
+		}
+		switch x := v.(type) {
+		case *ssa.Const:
+			return constBool(x)
+		case *ssa.UnOp:
+			if x.Op == token.NOT {
+				if r, ok := evalB(x.X, env); ok {
+					return !r, true
+				}
+			}
+		case *ssa.BinOp:
+			// a comparison of a value that the starting edge pinned to a constant
+			var a, k int64
+			var okA, okK bool
+			op := x.Op
+			if a, okA = known[x.X]; okA {
+				k, okK = constInt(x.Y)
+			} else if a, okA = known[x.Y]; okA {
+				k, okK = constInt(x.X)
+				op = swapOp(op)
+			}
+			if okA && okK {
+				switch op {
+				case token.EQL:
+					return a == k, true
+				case token.NEQ:
+					return a != k, true
+				case token.LSS:
+					return a < k, true
+				case token.LEQ:
+					return a <= k, true
+				case token.GTR:
+					return a > k, true
+				case token.GEQ:
+					return a >= k, true
+				}
+			}
+		}
+		return false, false
+	}
+	var dfs func(b, prev *ssa.BasicBlock, env map[ssa.Value]bool, trail []ssa.Instruction) bool
+	dfs = func(b, prev *ssa.BasicBlock, env map[ssa.Value]bool, trail []ssa.Instruction) bool {
+		k := key{b, prev}
+		if seen[k] > 2 {
+			return false
+		}
+		seen[k]++
+		env2 := map[ssa.Value]bool{}
+		for kk, vv := range env {
+			env2[kk] = vv
+		}
+		for _, ins := range b.Instrs {
+			if phi, ok := ins.(*ssa.Phi); ok {
+				for i, p := range b.Preds {
+					if p == prev {
+						if r, ok := evalB(phi.Edges[i], env); ok {
+							env2[phi] = r
+						} else {
+							delete(env2, phi)
+						}
+						// integer phis: carry a pinned value along the edge taken (restored when the search backtracks)
+						if kv, ok := known[phi.Edges[i]]; ok {
+							if _, had := known[phi]; !had {
+								known[phi] = kv
+								defer delete(known, phi)
+							}
+						} else if kv, isK := constInt(phi.Edges[i]); isK {
+							if _, had := known[phi]; !had {
+								known[phi] = kv
+								defer delete(known, phi)
+							}
+						}
+					}
+				}
+				continue
+			}
+			if target(ins) {
+				witness = append(append([]ssa.Instruction{}, trail...), ins)
+				return true
+			}
+			if avoid(ins) || c.fc.diverges(ins) {
+				return false
+			}
+			if iff, ok := ins.(*ssa.If); ok && len(b.Succs) == 2 {
+				t := append(append([]ssa.Instruction{}, trail...), ins)
+				if r, ok := evalB(iff.Cond, env2); ok {
+					if r {
+						return dfs(b.Succs[0], b, env2, t)
+					}
+					return dfs(b.Succs[1], b, env2, t)
+				}
+				return dfs(b.Succs[0], b, env2, t) || dfs(b.Succs[1], b, env2, t)
+			}
+		}
+		if len(b.Instrs) == 0 {
+			return false
+		}
+		last := b.Instrs[len(b.Instrs)-1]
+		if _, isIf := last.(*ssa.If); isIf {
+			return false
+		}
+		for _, s := range b.Succs {
+			if dfs(s, b, env2, append(append([]ssa.Instruction{}, trail...), last)) {
+				return true
+			}
+		}
+		return false
+	}
+	var start []ssa.Instruction
+	if len(pred.Instrs) > 0 {
+		start = []ssa.Instruction{pred.Instrs[len(pred.Instrs)-1]}
+	}
+	if dfs(succ, pred, map[ssa.Value]bool{}, start) {
+		return witness
+	}
+	return nil
+}
